@@ -126,7 +126,8 @@ SliceAfter(a, vals) ==
 
 (* =========================== replies =================================== *)
 ReplyOK(a, r) ==
-  CASE a.op \in {"load", "fresh", "brev", "bload", "bnew0"} -> r = 0
+  CASE a.op \in {"load", "fresh", "brev", "bload", "bloadmany", "bnew0"} -> r = 0
+    [] a.op = "bsetrun" -> r = 0          \* number of Set calls of the run that were refused
     [] a.op = "bdata" ->   \* a block from (block number, bytes): fails or holds what the bytes denote
          LET d == Denote(a.bytes) IN
          IF r THEN ~d.ok \/ ~IsMarshalOf(a.bytes, d.S) ELSE d.ok
@@ -166,6 +167,22 @@ Do(a, r) ==
          /\ a.kind \in {"big", "tip"} /\ StartOK(a.kind, a.start)
          /\ \A i \in 1..Len(a.ms) : a.ms[i] \in Bits
          /\ blk' = [blk EXCEPT ![a.h] = [ok |-> TRUE, kind |-> a.kind, start |-> a.start, S |-> AsSet(a.ms)]]
+         /\ UNCHANGED cur
+    [] a.op = "bloadmany" ->       \* many blocks built by the harness, one event: handles hs[i] get starts[i], mss[i]
+         /\ a.kind \in {"big", "tip"}
+         /\ Len(a.starts) = Len(a.hs) /\ Len(a.mss) = Len(a.hs)
+         /\ \A i \in 1..Len(a.hs) : /\ a.hs[i] \in DOMAIN blk /\ StartOK(a.kind, a.starts[i])
+                                      /\ \A j \in 1..Len(a.mss[i]) : a.mss[i][j] \in Bits
+                                      /\ \A k \in 1..Len(a.hs) : a.hs[k] = a.hs[i] => k = i
+         /\ blk' = [h \in DOMAIN blk |->
+                      IF \E i \in 1..Len(a.hs) : a.hs[i] = h
+                      THEN LET i == CHOOSE x \in 1..Len(a.hs) : a.hs[x] = h
+                           IN [ok |-> TRUE, kind |-> a.kind, start |-> a.starts[i], S |-> AsSet(a.mss[i])]
+                      ELSE blk[h]]
+         /\ UNCHANGED cur
+    [] a.op = "bsetrun" ->         \* cnt Set calls with the block's own integers of bits lo, lo+1, ...: one event
+         /\ blk[a.h].ok /\ a.lo >= 0 /\ a.cnt >= 0 /\ a.lo + a.cnt <= C
+         /\ blk' = [blk EXCEPT ![a.h].S = @ \cup {m \in Bits : m >= a.lo /\ m < a.lo + a.cnt}]
          /\ UNCHANGED cur
     [] a.op = "bnew0" ->           \* NewBigU32() / NewU32BitTip(): the empty block number 0
          /\ a.kind \in {"big", "tip"}
@@ -251,7 +268,7 @@ ImplAll(b, dir) ==
 Flip(dir) == IF dir = "f" THEN "r" ELSE "f"
 
 ImplReply(a) ==
-  CASE a.op \in {"load", "fresh", "brev", "bload", "bnew0"} -> 0
+  CASE a.op \in {"load", "fresh", "brev", "bload", "bloadmany", "bnew0", "bsetrun"} -> 0
     [] a.op = "bdata"     -> ImplUnmarshal(a.bytes).err
     [] a.op = "marshal"   -> ImplMarshal(cur)
     [] a.op = "unmarshal" -> ImplUnmarshal(a.bytes)
@@ -289,6 +306,7 @@ BlockActs ==
        {[op |-> "new", h |-> h, kind |-> k, v |-> v] : h \in Hs, k \in {"big", "tip"},
                                                        v \in AllInts}
   \cup {[op |-> "bnew0", h |-> h, kind |-> k] : h \in Hs, k \in {"big", "tip"}}
+  \cup UNION {{[op |-> "bsetrun", h |-> h, lo |-> lo, cnt |-> c] : h \in OkHs, c \in 0..(C - lo)} : lo \in Bits}
   \cup {[op |-> "bset", h |-> h, v |-> v] : h \in OkHs, v \in AllInts}
   \cup {[op |-> "brev", h |-> h, d |-> d] : h \in OkHs, d \in Hs}
   \cup {[op |-> "bgetn", h |-> h, dir |-> dir, n |-> n] : h \in OkHs, dir \in {"f", "r"}, n \in 0..(C + 1)}
@@ -379,6 +397,16 @@ Accepts ==
        IN /\ last'.r = ~belongs
           /\ blk'[a.h].S = IF belongs THEN b.S \cup {x % C} ELSE b.S
           /\ blk'[a.h].start = b.start
+  ]_allvars
+
+(* a run is its single Set calls: each integer ValueOf(b, m) is accepted and adds m *)
+RunMeaning ==
+  [][LET a == last'.a IN a.op = "bsetrun" =>
+       LET b == blk[a.h] IN
+       /\ \A m \in a.lo..(a.lo + a.cnt - 1) :
+             Valid(b.kind, ValueOf(b, m)) /\ StartD(b.kind, ValueOf(b, m)) = b.start /\ BitD(ValueOf(b, m)) = m
+       /\ blk'[a.h].S = b.S \cup (a.lo..(a.lo + a.cnt - 1))
+       /\ blk'[a.h].start = b.start
   ]_allvars
 
 (* the integers of a block are start*C + member; forward ascending, reverse descending *)
